@@ -10,6 +10,7 @@ CONSTANTS
   Watch = "none"
   AncVals = {"nil", "B"}
   Fulls = {FALSE}
+  InitDisks = {"A", "E"}
   Variant = "code"
 SPECIFICATION Spec
 INVARIANTS
@@ -19,4 +20,5 @@ INVARIANTS
   C21_EndpointsAgree
   C21_NoResidue
   C21_BaselineChain
+  C21_BaselineConsistent
 CHECK_DEADLOCK TRUE
